@@ -35,7 +35,7 @@ from elementpath.namespaces import XML_BASE, XPATH_FUNCTIONS_NAMESPACE
 from elementpath.helpers import collapse_white_spaces, is_xml_codepoint, \
     escape_json_string, unescape_json_string
 from elementpath.sequences import xlist
-from elementpath.etree import etree_iter_strings, is_etree_element
+from elementpath.etree import etree_iter_text, is_etree_element
 from elementpath.collations import CollationManager
 from elementpath.compare import get_key_function, same_key
 from elementpath.tree_builders import get_node_tree
@@ -1146,14 +1146,14 @@ def evaluate__xml_to_json(self: XPathFunction, context: ta.ContextType = None) \
 
             elif child.tag == BOOLEAN_TAG:
                 check_attributes('key', 'escaped-key')
-                if BooleanProxy(''.join(etree_iter_strings(child))):
+                if BooleanProxy(''.join(etree_iter_text(child))):
                     chunks.append('true')
                 else:
                     chunks.append('false')
 
             elif child.tag == NUMBER_TAG:
                 check_attributes('key', 'escaped-key')
-                value = ''.join(etree_iter_strings(child))
+                value = ''.join(etree_iter_text(child))
                 try:
                     if self.parser.xsd_version == '1.0':
                         number = cast(float, DoubleProxy10(value))
@@ -1174,7 +1174,7 @@ def evaluate__xml_to_json(self: XPathFunction, context: ta.ContextType = None) \
                     msg = f"{child} cannot have element children"
                     raise self.error('FOJS0006', msg)
 
-                value = ''.join(etree_iter_strings(child))
+                value = ''.join(etree_iter_text(child))
 
                 escaped = child.get('escaped', '0').strip()
                 if escaped not in BOOLEAN_VALUES:
